@@ -105,7 +105,8 @@ def read_interactions(path, comments="#", directed=False, delimiter=None,
     ids = None
     lines = (line.decode(encoding) for line in path)
     if keys:
-        ids = read_ids(path.name, delimiter=delimiter, timestamptype=timestamptype)
+        ids = read_ids(path.name, delimiter=delimiter, timestamptype=timestamptype, comments=comments,
+                       interactions=True)
 
     return parse_interactions(lines, comments=comments, directed=directed, delimiter=delimiter, nodetype=nodetype,
                               timestamptype=timestamptype, keys=ids)
@@ -290,24 +291,34 @@ def read_snapshots(path, comments="#", directed=False, delimiter=None,
     ids = None
     lines = (line.decode(encoding) for line in path)
     if keys:
-        ids = read_ids(path.name, delimiter=delimiter, timestamptype=timestamptype)
+        ids = read_ids(path.name, delimiter=delimiter, timestamptype=timestamptype, comments=comments)
 
     return parse_snapshots(lines, comments=comments, directed=directed, delimiter=delimiter, nodetype=nodetype,
                            timestamptype=timestamptype, keys=ids)
 
 
-def read_ids(path, delimiter=None, timestamptype=None):
-    f = open(path)
+def read_ids(path, delimiter=None, timestamptype=None, comments='#', interactions=False):
     ids = {}
-    for line in f:
-        s = line.rstrip().split(delimiter)
-        ids[timestamptype(s[-1])] = None
-        if len(line) == 4:
-            if s[-2] not in ['+', '-']:
-                ids[timestamptype(s[-2])] = None
-
-    f.flush()
-    f.close()
+    with open(path) as f:
+        for line in f:
+            # same row filter as the parsers: strip comments, skip blank and malformed rows
+            p = line.find(comments)
+            if p >= 0:
+                line = line[:p]
+            s = line.strip().split(delimiter)
+            if interactions:
+                if len(s) != 4:
+                    continue
+                stamps = [s[3]]
+            else:
+                if len(s) < 3:
+                    continue
+                stamps = s[2:4]
+            try:
+                for stamp in stamps:
+                    ids[timestamptype(stamp)] = None
+            except ValueError:
+                raise TypeError("Failed to convert timestamp %s to type %s." % (stamps, timestamptype))
 
     ids = compact_timeslot(ids.keys())
     return ids
